@@ -1,0 +1,60 @@
+//go:build verif
+
+// Contracts for package tlog (comment-only; read by /verif/govc).
+// frame.Spec* are ghost functions of the verification overlay of package frame.
+
+package tlog
+
+//@ func (*Writer).Initialize
+//@   requires w != nil
+//@   ensures  (err != nil) == (w.ByteWriter == nil)
+//@   ensures  err == nil ==> w.frameWriter != nil && frame.SpecWriterReady(w.frameWriter) &&
+//@              frame.SpecWriterTarget(w.frameWriter) == w.ByteWriter && frame.SpecWriterDialect(w.frameWriter) == w.DialectRW
+//@   modifies w.frameWriter
+
+//@ func (*Writer).Write
+//@   let fr = entry.Frame
+//@   let refused = (old(frame.SpecFrameMessage(entry.Frame)) == nil || frame.SpecRefusedByVersion(entry.Frame) ||
+//@                  (!old(frame.SpecIsRaw(frame.SpecFrameMessage(entry.Frame))) && (w.DialectRW == nil ||
+//@                    !frame.UfDialectHas(w.DialectRW, old(frame.SpecFrameMessage(entry.Frame).GetID())))))
+//@   requires w != nil && w.ByteWriter != nil && w.frameWriter != nil && frame.SpecWriterReady(w.frameWriter)
+//@   requires frame.SpecWriterTarget(w.frameWriter) == w.ByteWriter && frame.SpecWriterDialect(w.frameWriter) == w.DialectRW
+//@   requires entry != nil && entry.Frame != nil && frame.SpecSigFieldOK(entry.Frame)
+//@   requires frame.SpecFrameMessage(entry.Frame) != nil && frame.SpecIsRaw(frame.SpecFrameMessage(entry.Frame)) ==>
+//@              frame.SpecRawPayloadLen(entry.Frame) <= 255
+//@   ensures  [no-partial-entry] refused ==> err != nil && logLen() == 0
+//@   ensures  [at-most-two] logLen() <= 2
+//@   ensures  [timestamp-first] logLen() >= 1 ==> logN(0) == 8 && logIsTo(0, w.ByteWriter) &&
+//@              (forall k int :: 0 <= k && k < 8 ==> logByte(0, k) == specBE64Byte(unixMicro(entry.Time), k))
+//@   ensures  [frame-second] logLen() == 2 ==> logN(1) == frame.SpecFrameLen(fr) &&
+//@              (forall j int :: 0 <= j && j < frame.SpecFrameLen(fr) ==> logByte(1, j) == frame.SpecFrameWire(fr, j))
+//@   ensures  [errors-reported] logLen() == 1 ==> err != nil
+//@   ensures  [errors-reported-2] logLen() == 2 ==> err == logErr(1)
+//@   ensures  [success] err == nil ==> logLen() == 2 && logErr(0) == nil
+//@   modifies frame.SpecWriterBuf(w.frameWriter)[:], ghost:log,
+//@            *frame.SpecMessageField(entry.Frame) when old(frame.SpecFrameMessage(entry.Frame)) != nil && !old(frame.SpecIsRaw(frame.SpecFrameMessage(entry.Frame)))
+
+//@ func (*Reader).Initialize
+//@   requires r != nil
+//@   ensures  err == nil && r.br != nil && r.frameReader != nil && r.frameReader.BufByteReader == r.br &&
+//@            r.frameReader.DialectRW == r.DialectRW && r.frameReader.InKey == nil
+//@   modifies r.br, r.frameReader
+
+//@ func (*Reader).Read returns (res, err)
+//@   let BR  = r.br
+//@   let P0  = old(streamPos(r.br))
+//@   let AV  = streamAvail(r.br)
+//@   let POS = streamPos(r.br)
+//@   let inD = (r.frameReader.DialectRW != nil && frame.UfDialectHas(r.frameReader.DialectRW, frame.SpecWireID(r.br, P0+8)))
+//@   requires r != nil && r.br != nil && r.frameReader != nil && aliased(r.frameReader.BufByteReader, r.br) && r.frameReader.InKey == nil
+//@   ensures  [entry-xor-error] (res != nil) == (err == nil)
+//@   ensures  [needs-timestamp] AV - P0 < 8 ==> res == nil
+//@   ensures  [whole-entry-consumed] res != nil ==> AV - P0 >= 8 && frame.SpecFrameComplete(BR, P0+8) && POS == P0 + 8 + frame.SpecFrameSize(BR, P0+8)
+//@   ensures  [timestamp] res != nil ==> unixMicro(res.Time) == specBE64(BR, P0)
+//@   ensures  [frame] res != nil ==> res.Frame != nil && frame.SpecHeaderMatches(res.Frame, BR, P0+8)
+//@   ensures  [raw-frame] res != nil && !inD ==> frame.SpecFrameMatches(res.Frame, BR, P0+8)
+//@   ensures  [complete-entry-returned] AV - P0 >= 8 && frame.SpecFrameComplete(BR, P0+8) && !inD ==> res != nil
+//@   ensures  [fresh] res != nil ==> freshPtr(res)
+//@   canary   res == nil
+//@   canary   res != nil
+//@   modifies *r.br, *frame.SpecReaderWindow(r.frameReader)
